@@ -685,7 +685,20 @@ def oracle_geometry(ctx, d, g, payload, halo, stats):
 
 
 def pts_tokens(rows):
+    """Length-prefixed list of points for a model request; an array that is not one-point-per-row yields a token the driver rejects
+    (-> a reported correspondence difference), never an exception."""
+    rows = np.asarray(rows)
+    if rows.ndim != 2:
+        return f"!shape{tuple(rows.shape)}".replace(" ", "")
     return f"{len(rows)} " + " ".join(flist(r) for r in rows)
+
+
+def vec(x, f=fmts):
+    """A 1-d result as numbers; anything else as a canonical `!shape(...)` token."""
+    x = np.asarray(x)
+    if x.ndim != 1:
+        return f"!shape{tuple(x.shape)}".replace(" ", "")
+    return f(x)
 
 
 def show_rows(rows, f=fmts):
@@ -817,133 +830,146 @@ def surface_lines(ctx, d, g, img, cs, tok, origin, lines, impl):
                 impl.append(show(r, lambda r: f"{int(bool(r[0]))} | " + " ".join(r[1])))
 
 
+def _corr_geometry(ctx, d, g, payload, halo, stats, lines, impl, gen_lines, gen_meta):
+    """Correspondence requests / implementation responses of ONE geometry (appended in pairs)."""
+    dim, shape = g["dim"], g["shape"]
+    img = make_image(d, g, payload)
+    g = effective(g)
+    cs = img if isinstance(img, Raised) else call(lambda: img.coordinatesystem)
+    if isinstance(cs, Raised):
+        ctx.mark("CORR-BROKEN", {"correspondence": "coord", "geometry": g, "error": repr(cs)})
+        return
+    origin = [float(x) for x in np.asarray(img.origin)]
+    tok = cs_tokens(g, origin)
+    vox = halo_voxels(shape, halo)
+    if len(vox) > 150:
+        vox = vox[sorted(ctx.rng.sample(range(len(vox)), 150))]
+    if g["dyadic"]:
+        off = np.array([[ctx.rng.randint(0, 31) / 32 for _ in range(dim)] for _ in range(len(vox))])
+        off[0] = 0.0
+    else:
+        off = np.full((len(vox), dim), 0.5)
+    pts = vox + off
+    c = call(cs.coordinate, pts)
+    b = c if isinstance(c, Raised) else call(cs.voxel, c)
+    if g["origin"] is None:
+        lines.append(f"dorigin {dim} {flist(g['dims'])}")
+        impl.append(fmts(origin))
+    if g["dyadic"]:
+        lines.append(f"coord {tok} {pts_tokens(pts)}")
+        impl.append(repr(c) if isinstance(c, Raised) else show_rows(np.asarray(c)))
+        lines.append(f"opp {tok}")
+        o = call(lambda: img.opposite_corner)
+        impl.append(repr(o) if isinstance(o, Raised) else fmts(np.asarray(o)))
+        lines.append(f"vsize {tok}")
+        impl.append(fmts(img.voxel_size))
+        # typed points, incl. negative voxels
+        v = [int(x) for x in vox[ctx.rng.randrange(len(vox))]]
+        ctr = np.array(v) + 0.5
+        for conv, meth in (("toCoord", "to_coordinate"), ("toVoxel", "to_voxel"), ("toCenter", "to_voxel_center")):
+            for kind, obj, enc in (("vox", d.make_voxel(np.array(v)), flist(v)), ("ctr", d.make_voxel(np.array(v)).to_voxel_center(), flist(ctr)),
+                                   ("coord", d.make_coordinate(np.asarray(c)[0]) if not isinstance(c, Raised) else None, None)):
+                if obj is None:
+                    continue
+                if kind == "coord":
+                    enc = flist(np.asarray(c)[0])
+                r = call(getattr(obj, meth), cs)
+                lines.append(f"pt {conv} {tok} {kind} {enc}")
+                if isinstance(r, Raised):
+                    impl.append(repr(r))
+                else:
+                    k = "coord" if isinstance(r, d.Coordinate) else "vox" if isinstance(r, d.Voxel) else "ctr" if isinstance(r, d.VoxelCenter) else "?"
+                    impl.append(f"{k} {fmts(np.asarray(r))}")
+        # BasePoint.to(cls, cs): every source kind x every target class (single and array classes), and a foreign class
+        srcs = [("vox", d.make_voxel(np.array(v)), flist(v)), ("ctr", d.make_voxel(np.array(v)).to_voxel_center(), flist(ctr))]
+        if not isinstance(c, Raised):
+            srcs.append(("coord", d.make_coordinate(np.asarray(c)[0]), flist(np.asarray(c)[0])))
+        for kind, obj, enc in srcs:
+            for tk, cls in (("coord", d.Coordinate), ("coord", d.CoordinateArray), ("vox", d.Voxel), ("vox", d.VoxelArray),
+                            ("ctr", d.VoxelCenter), ("ctr", d.VoxelCenterArray), ("other", np.ndarray)):
+                r = call(obj.to, cls, cs)
+                lines.append(f"ptto {tk} {tok} {kind} {enc}")
+                if isinstance(r, Raised):
+                    impl.append(repr(r))
+                else:
+                    k = "coord" if isinstance(r, d.Coordinate) else "vox" if isinstance(r, d.Voxel) else "ctr" if isinstance(r, d.VoxelCenter) else "?"
+                    impl.append(f"{k} {fmts(np.asarray(r))}")
+        # __getitem__ of the typed arrays: int key, index array, boolean mask, anything else (slice)
+        grows = [[int(x) for x in vox[ctx.rng.randrange(len(vox))]] for _ in range(ctx.rng.randint(2, 4))]
+        gb = call(typed_batches, d, cs, grows)
+        if not isinstance(gb, Raised):
+            for gkind, garr, _, _ in gb:
+                enc_rows = pts_tokens(np.asarray(garr))
+                for form, key in getitem_keys(ctx.rng, len(grows)) + (("other", slice(0, 1)),):
+                    npkey = key if form in ("int", "other") else np.array(key, dtype=(bool if form == "mask" else int))
+                    r = call(lambda: garr[npkey])
+                    ktok = f"int {key}" if form == "int" else f"idx {flist(key)}" if form == "idx" else f"mask {len(key)} " + " ".join(str(int(b_)) for b_ in key) if form == "mask" else "other"
+                    lines.append(f"getitem {gkind} {ktok} {enc_rows}")
+                    if form == "other":
+                        impl.append("!NotImplementedError" if type(r) is np.ndarray else f"!typed-{type(r).__name__}")  # plain ndarray: outside the modelled keys
+                    elif isinstance(r, Raised):
+                        impl.append(repr(r))
+                    else:
+                        cls = type(r)
+                        rk = ("elem " if cls in (d.Coordinate, d.Voxel, d.VoxelCenter) else "arr " if cls in (d.CoordinateArray, d.VoxelArray, d.VoxelCenterArray) else "plain ")
+                        kn = "coord" if isinstance(r, d.Coordinate) else "vox" if isinstance(r, d.Voxel) else "ctr" if isinstance(r, d.VoxelCenter) else "?"
+                        vals = np.atleast_2d(np.asarray(r))
+                        impl.append(rk + kn + " | " + show_rows(vals))
+        # call forms: coordinate(list | tuple | array), voxel(list | tuple | array)
+        pv_ = [float(x) for x in pts[0]]
+        for f_, arg in (("list", pv_), ("tuple", tuple(pv_)), ("array", np.array(pv_))):
+            r = call(cs.coordinate, arg)
+            lines.append(f"form coordinate {f_} {tok} {flist(pv_)}")
+            impl.append(repr(r) if isinstance(r, Raised) else fmts(np.asarray(r)))
+            if not isinstance(c, Raised):
+                x_ = [float(x) for x in np.asarray(c)[0]]
+                r = call(cs.voxel, {"list": x_, "tuple": tuple(x_), "array": np.array(x_)}[f_])
+                lines.append(f"form voxel {f_} {tok} {flist(x_)}")
+                impl.append(repr(r) if isinstance(r, Raised) else " ".join(str(int(y)) for y in np.asarray(r)))
+        raw = [ctx.rng.randint(-40, 40) / 8 for _ in range(dim)]
+        for k, fn in (("vox", d.make_voxel), ("ctr", d.make_voxel_center)):
+            r = call(fn, np.array(raw))
+            lines.append(f"mk {k} {flist(raw)}")
+            impl.append(repr(r) if isinstance(r, Raised) else fmts(np.asarray(r)))
+        surface_lines(ctx, d, g, img, cs, tok, origin, lines, impl)
+        if g.get("history"):
+            # the in-place life of this image object against the stateless model (coordinatesystem = function of the current fields)
+            g0 = {k_: v_ for k_, v_ in g.items() if k_ not in ("history", "built_dims", "built_origin")}
+            g0 = dict(g0, dims=g["built_dims"], origin=g["built_origin"])
+            img0 = make_image(d, g0, payload)
+            o0 = [float(x) for x in np.asarray(img0.origin)]
+            ops = []
+            for op in g["history"]:
+                ops.append("touch" if op == "touch" else "reset" if op == "reset_origin" else
+                           ("origin " + flist(op[1])) if op[0] in ("set_origin", "update_origin") else ("dims " + flist(op[1])))
+            lines.append(f"hist {cs_tokens(g0, o0)} {len(ops)} " + " ".join(ops))
+            z, opp = call(cs.coordinate, [0] * dim), call(lambda: img.opposite_corner)
+            impl.append(fmts(img.dimensions) + " | " + fmts(np.asarray(img.origin)) + " | " +
+                        (repr(z) if isinstance(z, Raised) else fmts(np.asarray(z))) + " | " + (repr(opp) if isinstance(opp, Raised) else fmts(np.asarray(opp))))
+    else:
+        # general stream: the model evaluates the exact rational coordinates; measured, not diffed
+        gen_lines.append(f"coord {tok} {pts_tokens(pts)}")
+        gen_meta.append((g, c))
+    if not isinstance(c, Raised):
+        # voxel() on the coordinates the implementation produced (exact rationals of the floats):
+        # indices must agree exactly (centres / dyadic points are >= measured error away from a face)
+        lines.append(f"voxel {tok} {pts_tokens(np.asarray(c))}")
+        impl.append(repr(b) if isinstance(b, Raised) else show_rows(np.asarray(b), lambda r: " ".join(str(int(x)) for x in r)))
+
+
 def correspondence(ctx, d, geoms, halo, stats):
     lines, impl = [], []
     gen_lines, gen_meta = [], []
     for g, payload in geoms:
-        dim, shape = g["dim"], g["shape"]
-        img = make_image(d, g, payload)
-        g = effective(g)
-        cs = img if isinstance(img, Raised) else call(lambda: img.coordinatesystem)
-        if isinstance(cs, Raised):
-            ctx.mark("CORR-BROKEN", {"correspondence": "coord", "geometry": g, "error": repr(cs)})
-            continue
-        origin = [float(x) for x in np.asarray(img.origin)]
-        tok = cs_tokens(g, origin)
-        vox = halo_voxels(shape, halo)
-        if len(vox) > 150:
-            vox = vox[sorted(ctx.rng.sample(range(len(vox)), 150))]
-        if g["dyadic"]:
-            off = np.array([[ctx.rng.randint(0, 31) / 32 for _ in range(dim)] for _ in range(len(vox))])
-            off[0] = 0.0
-        else:
-            off = np.full((len(vox), dim), 0.5)
-        pts = vox + off
-        c = call(cs.coordinate, pts)
-        b = c if isinstance(c, Raised) else call(cs.voxel, c)
-        if g["origin"] is None:
-            lines.append(f"dorigin {dim} {flist(g['dims'])}")
-            impl.append(fmts(origin))
-        if g["dyadic"]:
-            lines.append(f"coord {tok} {pts_tokens(pts)}")
-            impl.append(repr(c) if isinstance(c, Raised) else show_rows(np.asarray(c)))
-            lines.append(f"opp {tok}")
-            o = call(lambda: img.opposite_corner)
-            impl.append(repr(o) if isinstance(o, Raised) else fmts(np.asarray(o)))
-            lines.append(f"vsize {tok}")
-            impl.append(fmts(img.voxel_size))
-            # typed points, incl. negative voxels
-            v = [int(x) for x in vox[ctx.rng.randrange(len(vox))]]
-            ctr = np.array(v) + 0.5
-            for conv, meth in (("toCoord", "to_coordinate"), ("toVoxel", "to_voxel"), ("toCenter", "to_voxel_center")):
-                for kind, obj, enc in (("vox", d.make_voxel(np.array(v)), flist(v)), ("ctr", d.make_voxel(np.array(v)).to_voxel_center(), flist(ctr)),
-                                       ("coord", d.make_coordinate(np.asarray(c)[0]) if not isinstance(c, Raised) else None, None)):
-                    if obj is None:
-                        continue
-                    if kind == "coord":
-                        enc = flist(np.asarray(c)[0])
-                    r = call(getattr(obj, meth), cs)
-                    lines.append(f"pt {conv} {tok} {kind} {enc}")
-                    if isinstance(r, Raised):
-                        impl.append(repr(r))
-                    else:
-                        k = "coord" if isinstance(r, d.Coordinate) else "vox" if isinstance(r, d.Voxel) else "ctr" if isinstance(r, d.VoxelCenter) else "?"
-                        impl.append(f"{k} {fmts(np.asarray(r))}")
-            # BasePoint.to(cls, cs): every source kind x every target class (single and array classes), and a foreign class
-            srcs = [("vox", d.make_voxel(np.array(v)), flist(v)), ("ctr", d.make_voxel(np.array(v)).to_voxel_center(), flist(ctr))]
-            if not isinstance(c, Raised):
-                srcs.append(("coord", d.make_coordinate(np.asarray(c)[0]), flist(np.asarray(c)[0])))
-            for kind, obj, enc in srcs:
-                for tk, cls in (("coord", d.Coordinate), ("coord", d.CoordinateArray), ("vox", d.Voxel), ("vox", d.VoxelArray),
-                                ("ctr", d.VoxelCenter), ("ctr", d.VoxelCenterArray), ("other", np.ndarray)):
-                    r = call(obj.to, cls, cs)
-                    lines.append(f"ptto {tk} {tok} {kind} {enc}")
-                    if isinstance(r, Raised):
-                        impl.append(repr(r))
-                    else:
-                        k = "coord" if isinstance(r, d.Coordinate) else "vox" if isinstance(r, d.Voxel) else "ctr" if isinstance(r, d.VoxelCenter) else "?"
-                        impl.append(f"{k} {fmts(np.asarray(r))}")
-            # __getitem__ of the typed arrays: int key, index array, boolean mask, anything else (slice)
-            grows = [[int(x) for x in vox[ctx.rng.randrange(len(vox))]] for _ in range(ctx.rng.randint(2, 4))]
-            gb = call(typed_batches, d, cs, grows)
-            if not isinstance(gb, Raised):
-                for gkind, garr, _, _ in gb:
-                    enc_rows = pts_tokens(np.asarray(garr))
-                    for form, key in getitem_keys(ctx.rng, len(grows)) + (("other", slice(0, 1)),):
-                        npkey = key if form in ("int", "other") else np.array(key, dtype=(bool if form == "mask" else int))
-                        r = call(lambda: garr[npkey])
-                        ktok = f"int {key}" if form == "int" else f"idx {flist(key)}" if form == "idx" else f"mask {len(key)} " + " ".join(str(int(b_)) for b_ in key) if form == "mask" else "other"
-                        lines.append(f"getitem {gkind} {ktok} {enc_rows}")
-                        if form == "other":
-                            impl.append("!NotImplementedError" if type(r) is np.ndarray else f"!typed-{type(r).__name__}")  # plain ndarray: outside the modelled keys
-                        elif isinstance(r, Raised):
-                            impl.append(repr(r))
-                        else:
-                            cls = type(r)
-                            rk = ("elem " if cls in (d.Coordinate, d.Voxel, d.VoxelCenter) else "arr " if cls in (d.CoordinateArray, d.VoxelArray, d.VoxelCenterArray) else "plain ")
-                            kn = "coord" if isinstance(r, d.Coordinate) else "vox" if isinstance(r, d.Voxel) else "ctr" if isinstance(r, d.VoxelCenter) else "?"
-                            vals = np.atleast_2d(np.asarray(r))
-                            impl.append(rk + kn + " | " + show_rows(vals))
-            # call forms: coordinate(list | tuple | array), voxel(list | tuple | array)
-            pv_ = [float(x) for x in pts[0]]
-            for f_, arg in (("list", pv_), ("tuple", tuple(pv_)), ("array", np.array(pv_))):
-                r = call(cs.coordinate, arg)
-                lines.append(f"form coordinate {f_} {tok} {flist(pv_)}")
-                impl.append(repr(r) if isinstance(r, Raised) else fmts(np.asarray(r)))
-                if not isinstance(c, Raised):
-                    x_ = [float(x) for x in np.asarray(c)[0]]
-                    r = call(cs.voxel, {"list": x_, "tuple": tuple(x_), "array": np.array(x_)}[f_])
-                    lines.append(f"form voxel {f_} {tok} {flist(x_)}")
-                    impl.append(repr(r) if isinstance(r, Raised) else " ".join(str(int(y)) for y in np.asarray(r)))
-            raw = [ctx.rng.randint(-40, 40) / 8 for _ in range(dim)]
-            for k, fn in (("vox", d.make_voxel), ("ctr", d.make_voxel_center)):
-                r = call(fn, np.array(raw))
-                lines.append(f"mk {k} {flist(raw)}")
-                impl.append(repr(r) if isinstance(r, Raised) else fmts(np.asarray(r)))
-            surface_lines(ctx, d, g, img, cs, tok, origin, lines, impl)
-            if g.get("history"):
-                # the in-place life of this image object against the stateless model (coordinatesystem = function of the current fields)
-                g0 = {k_: v_ for k_, v_ in g.items() if k_ not in ("history", "built_dims", "built_origin")}
-                g0 = dict(g0, dims=g["built_dims"], origin=g["built_origin"])
-                img0 = make_image(d, g0, payload)
-                o0 = [float(x) for x in np.asarray(img0.origin)]
-                ops = []
-                for op in g["history"]:
-                    ops.append("touch" if op == "touch" else "reset" if op == "reset_origin" else
-                               ("origin " + flist(op[1])) if op[0] in ("set_origin", "update_origin") else ("dims " + flist(op[1])))
-                lines.append(f"hist {cs_tokens(g0, o0)} {len(ops)} " + " ".join(ops))
-                z, opp = call(cs.coordinate, [0] * dim), call(lambda: img.opposite_corner)
-                impl.append(fmts(img.dimensions) + " | " + fmts(np.asarray(img.origin)) + " | " +
-                            (repr(z) if isinstance(z, Raised) else fmts(np.asarray(z))) + " | " + (repr(opp) if isinstance(opp, Raised) else fmts(np.asarray(opp))))
-        else:
-            # general stream: the model evaluates the exact rational coordinates; measured, not diffed
-            gen_lines.append(f"coord {tok} {pts_tokens(pts)}")
-            gen_meta.append((g, c))
-        if not isinstance(c, Raised):
-            # voxel() on the coordinates the implementation produced (exact rationals of the floats):
-            # indices must agree exactly (centres / dyadic points are >= measured error away from a face)
-            lines.append(f"voxel {tok} {pts_tokens(np.asarray(c))}")
-            impl.append(repr(b) if isinstance(b, Raised) else show_rows(np.asarray(b), lambda r: " ".join(str(int(x)) for x in r)))
+        try:
+            _corr_geometry(ctx, d, g, payload, halo, stats, lines, impl, gen_lines, gen_meta)
+        except Exception as e:  # noqa: BLE001 - a result of unexpected shape / type must become a reported difference, never a harness crash
+            k_ = min(len(lines), len(impl))
+            del lines[k_:], impl[k_:]
+            k_ = min(len(gen_lines), len(gen_meta))
+            del gen_lines[k_:], gen_meta[k_:]
+            lines.append("harness-guard " + json.dumps(g, default=str).replace(" ", ""))
+            impl.append(f"!implementation-result-not-formattable:{type(e).__name__}:{str(e)[:80]}".replace(" ", "_"))
     ctx.correspond("coordinate-system", lines, impl, driver="C01")
     if gen_lines:
         got = ctx.model(gen_lines, "C01")
@@ -1017,7 +1043,10 @@ def run(ctx):
     correspondence(ctx, d, geoms[::step], ctx.pick(1, 2), stats)
     dist = {}
     for g, payload in geoms:
-        oracle_geometry(ctx, d, g, payload, 2, stats)
+        r_ = call(oracle_geometry, ctx, d, g, payload, 2, stats)
+        if isinstance(r_, Raised):  # a result of unexpected shape / type broke an oracle clause: that IS a failing input, not a harness error
+            ctx.fail(f"C01:implementation-result-unusable:{type(r_.exc).__name__}", f"an oracle clause could not evaluate the implementation's result on this geometry: {r_.exc!r}",
+                     {"geometry": effective(g), "payload": payload, "clause": "surface"})
         key = f"dim{g['dim']}:{g['regime']}:{payload}"
         dist[key] = dist.get(key, 0) + 1
     ctx.sample({"geometry": geoms[0][0], "payload": geoms[0][1]})
